@@ -148,6 +148,7 @@ def c17_rf2(run):
     run.min_instances('RF2', 300)
     rf_alloc.rf27(run)
     run.min_instances('RF27', 3)
+    rf_alloc.rf2b(run)
 
 
 def c17_rf4(run):
@@ -237,6 +238,7 @@ def c13_rf16(run):
     run.min_instances('RF16e', 4)
     rf_proto.rf24(run)
     run.min_instances('RF24', 12)
+    rf_proto.rf16l(run)
 
 
 def c14_rf16f(run):
